@@ -21,7 +21,7 @@ import (
 	"cvh/lib"
 )
 
-type direct struct {
+type dmDirect struct {
 	rng  *lib.Rng
 	sum  *lib.Summary
 	seen map[uint64]bool
@@ -36,7 +36,7 @@ type direct struct {
 	rejectReasons                 map[string]int
 }
 
-func hashText(s string) uint64 {
+func dmHashText(s string) uint64 {
 	h := fnv.New64a()
 	h.Write([]byte(s))
 	return h.Sum64()
@@ -44,7 +44,7 @@ func hashText(s string) uint64 {
 
 // RunDirect is the direct no-internal-error monitor (see main.go).
 func RunDirect(rng *lib.Rng, tier string, sum *lib.Summary) {
-	d := &direct{rng: rng, sum: sum, seen: map[uint64]bool{}, perKey: map[string]int{},
+	d := &dmDirect{rng: rng, sum: sum, seen: map[uint64]bool{}, perKey: map[string]int{},
 		reportedIndep: map[string]bool{}, rejectReasons: map[string]int{},
 		debug: os.Getenv("C01_DEBUG") != ""}
 	if sum.Distribution == nil {
@@ -63,7 +63,7 @@ func RunDirect(rng *lib.Rng, tier string, sum *lib.Summary) {
 		nScripts, nScen = nScripts*40, nScen*40
 	}
 	for i := 0; i < nScripts; i++ {
-		g := newGen(lib.NewRng(rng.U64()))
+		g := dmNewGen(lib.NewRng(rng.U64()))
 		sc := g.script()
 		d.generated++
 		ok := d.process(sc)
@@ -73,7 +73,7 @@ func RunDirect(rng *lib.Rng, tier string, sum *lib.Summary) {
 		// mutants of accepted programs: kept when the real checker still accepts them
 		mr := lib.NewRng(rng.U64())
 		for m := 0; m < mutPer; m++ {
-			ms := mutate(mr, sc)
+			ms := dmMutate(mr, sc)
 			if ms == nil {
 				continue
 			}
@@ -84,7 +84,7 @@ func RunDirect(rng *lib.Rng, tier string, sum *lib.Summary) {
 		}
 	}
 	for i := 0; i < nScen; i++ {
-		g := newGen(lib.NewRng(rng.U64()))
+		g := dmNewGen(lib.NewRng(rng.U64()))
 		sc := g.scenario()
 		d.generated++
 		ok := d.process(sc)
@@ -93,7 +93,7 @@ func RunDirect(rng *lib.Rng, tier string, sum *lib.Summary) {
 		}
 		mr := lib.NewRng(rng.U64())
 		for m := 0; m < 2; m++ {
-			ms := mutate(mr, sc)
+			ms := dmMutate(mr, sc)
 			if ms == nil {
 				continue
 			}
@@ -127,11 +127,11 @@ func RunDirect(rng *lib.Rng, tier string, sum *lib.Summary) {
 		"accepted_distinct_total":   d.accepted,
 		"executions":                d.executions,
 		"failures_per_key":          d.perKey,
-		"checker_rejection_reasons": topN(d.rejectReasons, 12),
+		"checker_rejection_reasons": dmTopN(d.rejectReasons, 12),
 	}
 }
 
-func topN(m map[string]int, n int) map[string]int {
+func dmTopN(m map[string]int, n int) map[string]int {
 	type kv struct {
 		k string
 		v int
@@ -158,8 +158,8 @@ func topN(m map[string]int, n int) map[string]int {
 
 // runCorpus replays the minimized past failing cases first, so that known findings are reported on
 // every run independently of the seed.
-func (d *direct) runCorpus() {
-	scs, names := loadCorpus()
+func (d *dmDirect) runCorpus() {
+	scs, names := dmLoadCorpus()
 	for i, sc := range scs {
 		i0 := i
 		d.sum.Count("direct:corpus:files")
@@ -172,18 +172,18 @@ func (d *direct) runCorpus() {
 		}
 		reproduced := false
 		for _, vm := range engines {
-			res, f := runScenario(sc, vm)
+			res, f := dmRunScenario(sc, vm)
 			d.executions += len(res)
 			if d.debug {
 				for i, r := range res {
-					fmt.Fprintf(os.Stderr, "corpus %s vm=%v step %d: class=%q %s\n", names[i0], vm, i, r.V.Class, trimTo(r.Err, 300))
+					fmt.Fprintf(os.Stderr, "corpus %s vm=%v step %d: class=%q %s\n", names[i0], vm, i, r.V.Class, dmTrimTo(r.Err, 300))
 				}
 			}
 			if f < 0 {
 				continue
 			}
 			v := res[f].V
-			key := failureKey(v, engineName(vm), sc, f)
+			key := dmFailureKey(v, dmEngineName(vm), sc, f)
 			if key == sc.Key {
 				reproduced = true
 			}
@@ -198,9 +198,9 @@ func (d *direct) runCorpus() {
 }
 
 // report records one failure (engine-independent keys once per run and program).
-func (d *direct) report(key string, v verdict, vm bool, shrunk, orig *Scenario, failing int, errText string, origin string) {
-	if engineIndependent(key) {
-		id := key + "|" + fmt.Sprint(hashText(orig.programText()))
+func (d *dmDirect) report(key string, v dmVerdict, vm bool, shrunk, orig *dmScenario, failing int, errText string, origin string) {
+	if dmEngineIndependent(key) {
+		id := key + "|" + fmt.Sprint(dmHashText(orig.programText()))
 		if d.reportedIndep[id] {
 			return
 		}
@@ -212,7 +212,7 @@ func (d *direct) report(key string, v verdict, vm bool, shrunk, orig *Scenario, 
 		errText = errText[:600]
 	}
 	replay := map[string]any{
-		"engine": engineName(vm),
+		"engine": dmEngineName(vm),
 		"error":  errText,
 		"origin": origin,
 	}
@@ -229,7 +229,7 @@ func (d *direct) report(key string, v verdict, vm bool, shrunk, orig *Scenario, 
 	if orig.Mutant != "" {
 		replay["mutation"] = orig.Mutant
 	}
-	what := fmt.Sprintf("checker-accepted program fails in the %s with %s (%s): %s", engineName(vm), v.Class, v.GoType, v.Msg)
+	what := fmt.Sprintf("checker-accepted program fails in the %s with %s (%s): %s", dmEngineName(vm), v.Class, v.GoType, v.Msg)
 	if v.Frame != "" {
 		what += " [raised in " + v.Frame + "]"
 	}
@@ -238,26 +238,26 @@ func (d *direct) report(key string, v verdict, vm bool, shrunk, orig *Scenario, 
 
 // process runs one generated program / scenario in both engines; returns whether the real checker
 // accepted it (all steps).
-func (d *direct) process(sc *Scenario) bool {
+func (d *dmDirect) process(sc *dmScenario) bool {
 	text := sc.programText()
-	h := hashText(text)
+	h := dmHashText(text)
 	if d.seen[h] {
 		d.sum.Count("direct:duplicate")
 		return false
 	}
 	d.seen[h] = true
 
-	resI, fI := runScenario(sc, false)
+	resI, fI := dmRunScenario(sc, false)
 	d.executions += len(resI)
 	acceptedAll := true
 	for _, r := range resI {
 		if r.V.Class == "checker" || r.V.Class == "parse" {
 			acceptedAll = false
 			if d.debug {
-				fmt.Fprintf(os.Stderr, "---- REJECTED (%s) mutant=%q\n%s\n%s\n", r.V.Class, sc.Mutant, text, trimTo(r.Err, 1500))
+				fmt.Fprintf(os.Stderr, "---- REJECTED (%s) mutant=%q\n%s\n%s\n", r.V.Class, sc.Mutant, text, dmTrimTo(r.Err, 1500))
 			}
 			if sc.Mutant == "" {
-				d.rejectReasons[rejectionReason(r.Err)]++
+				d.rejectReasons[dmRejectionReason(r.Err)]++
 			}
 		}
 	}
@@ -271,20 +271,22 @@ func (d *direct) process(sc *Scenario) bool {
 		}
 		return false
 	}
-	resV, fV := runScenario(sc, true)
+	resV, fV := dmRunScenario(sc, true)
 	d.executions += len(resV)
 
 	if acceptedAll {
 		d.accepted++
-		kind := "script"
+		dmKind := "script"
 		if len(sc.Steps) > 1 {
-			kind = "scenario"
+			dmKind = "scenario"
 		}
 		if sc.Mutant != "" {
-			d.sum.Count("direct:accepted:mutant:" + kind)
-			d.sum.Count("direct:mutation:" + sc.Mutant)
+			d.sum.Count("direct:accepted:mutant:" + dmKind)
+			for _, m := range strings.Split(sc.Mutant, "+") {
+				d.sum.Count("direct:mutation:" + m)
+			}
 		} else {
-			d.sum.Count("direct:accepted:generated:" + kind)
+			d.sum.Count("direct:accepted:generated:" + dmKind)
 		}
 		for _, f := range sc.Features {
 			d.sum.Count("direct:feature:" + f)
@@ -294,7 +296,7 @@ func (d *direct) process(sc *Scenario) bool {
 		d.sum.Count("direct:rejected:scenario-step")
 	}
 	for _, x := range []struct {
-		res []stepResult
+		res []dmStepResult
 		vm  bool
 	}{{resI, false}, {resV, true}} {
 		for i, r := range x.res {
@@ -302,19 +304,19 @@ func (d *direct) process(sc *Scenario) bool {
 			if cls == "" {
 				cls = "ok"
 			}
-			d.sum.Count("direct:outcome:" + cls + ":" + engineName(x.vm))
+			d.sum.Count("direct:outcome:" + cls + ":" + dmEngineName(x.vm))
 			if cls == "user" {
 				d.sum.Count("direct:usererror:" + r.V.GoType)
 			}
 			if d.debug && (cls == "external" || cls == "internal" || cls == "crash" || (cls == "user" && os.Getenv("C01_DEBUG") == "2")) {
-				fmt.Fprintf(os.Stderr, "---- OUTCOME %s engine=%s step %d\n%s\n%s\n", cls, engineName(x.vm), i, sc.Steps[i].Code, trimTo(r.Err, 1200))
+				fmt.Fprintf(os.Stderr, "---- OUTCOME %s engine=%s step %d\n%s\n%s\n", cls, dmEngineName(x.vm), i, sc.Steps[i].Code, dmTrimTo(r.Err, 1200))
 			}
 		}
 	}
 	if d.samples < 3 && acceptedAll && (d.samples == 0 || (d.samples == 1 && sc.Mutant != "") || (d.samples == 2 && len(sc.Steps) > 1)) {
 		d.samples++
 		d.sum.Sample(map[string]any{"leg": "direct", "steps": sc.Steps, "mutation": sc.Mutant,
-			"interpreter": lastClass(resI), "vm": lastClass(resV)})
+			"interpreter": dmLastClass(resI), "vm": dmLastClass(resV)})
 	}
 	if fI >= 0 {
 		d.fail(sc, false, resI, fI)
@@ -325,7 +327,7 @@ func (d *direct) process(sc *Scenario) bool {
 	return acceptedAll
 }
 
-func lastClass(res []stepResult) string {
+func dmLastClass(res []dmStepResult) string {
 	if len(res) == 0 {
 		return ""
 	}
@@ -336,7 +338,7 @@ func lastClass(res []stepResult) string {
 	return c
 }
 
-func trimTo(s string, n int) string {
+func dmTrimTo(s string, n int) string {
 	if len(s) > n {
 		return s[:n]
 	}
@@ -344,28 +346,28 @@ func trimTo(s string, n int) string {
 }
 
 // rejectionReason extracts the first checker error message line (statistics on generator quality).
-func rejectionReason(errText string) string {
+func dmRejectionReason(errText string) string {
 	for _, l := range strings.Split(errText, "\n") {
 		l = strings.TrimSpace(l)
 		if strings.HasPrefix(l, "error:") {
-			return trimTo(normMsg(strings.TrimPrefix(l, "error:")), 70)
+			return dmTrimTo(dmNormMsg(strings.TrimPrefix(l, "error:")), 70)
 		}
 	}
 	return "?"
 }
 
 // fail shrinks a failing program and reports it under its narrow key.
-func (d *direct) fail(sc *Scenario, vm bool, res []stepResult, f int) {
+func (d *dmDirect) fail(sc *dmScenario, vm bool, res []dmStepResult, f int) {
 	v := res[f].V
 	budget := 150
-	preKey := failureKey(v, engineName(vm), sc, f)
+	preKey := dmFailureKey(v, dmEngineName(vm), sc, f)
 	if d.perKey[preKey] >= 5 {
 		budget = 50
 	}
-	shrunk, runs := shrinkScenario(sc, vm, v, f, budget)
+	shrunk, runs := dmShrinkScenario(sc, vm, v, f, budget)
 	d.executions += runs
 	fs := len(shrunk.Steps) - 1
-	key := failureKey(v, engineName(vm), shrunk, fs)
+	key := dmFailureKey(v, dmEngineName(vm), shrunk, fs)
 	origin := "generated"
 	if sc.Mutant != "" {
 		origin = "mutant:" + sc.Mutant
